@@ -795,11 +795,16 @@ C20_Probes(s, rec, gh) ==
 \* the time queue is only used to find the records to delete at maturity: multiplicity and balances of its entries are unobservable
 QueueView(s) == [t \in DOMAIN s.redQ |-> {<<s.redQ[t][i].d, s.redQ[t][i].src, s.redQ[t][i].dst, s.redQ[t][i].a>> : i \in DOMAIN s.redQ[t]}]
 ObsView(s) == [StoreView(s) EXCEPT !.redQ = QueueView(s)]
-C18_Step(pre, rec, post) ==
+AnyMerged(gh) == \E i \in DOMAIN gh.red : MergedRecord(gh, <<gh.red[i].d, gh.red[i].dst, gh.red[i].a>>)
+C18_Step(pre, rec, post, gh) ==
   IF rec.ev # "ExportImport" THEN {}
   ELSE Check("C18", rec.res.ok, "export/import failed: " \o rec.res.err)
        \cup Check("C18", rec.res.ok => rec.res.same, "a second export (after re-import) is not identical to the first")
-       \cup UNION {Check("C18", ObsView(pre)[f] = ObsView(post)[f], "after export and re-import the module's " \o f \o " differ from the original") : f \in DOMAIN ObsView(pre) \ {"flag"}}
+       \cup UNION {CheckK("C18", ObsView(pre)[f] = ObsView(post)[f],
+                          \* K4: a merged redelegation record keeps only its first source, so its index and queue entries for the other
+                          \* source cannot be rebuilt from the exported record
+                          IF f \in {"redIdx", "redQ"} /\ AnyMerged(gh) THEN "K4" ELSE "",
+                          "after export and re-import the module's " \o f \o " differ from the original") : f \in DOMAIN ObsView(pre) \ {"flag"}}
        \* a rebalance that is pending must still be pending; an additional one is a no-op at a fix-point
        \cup Check("C18", pre.flag => post.flag, "a pending rebalance is lost by export and re-import")
 
@@ -822,7 +827,7 @@ Judge(pre, rec, post, gh, gh2) ==
   \cup C08_Step(pre, rec, post, gh) \cup C06_Step(pre, rec, post, gh) \cup C04_Step(pre, rec, post)
   \cup C09_Step(pre, rec, post) \cup C14_Step(pre, rec, post) \cup C14_Settle(pre, rec, post)
   \cup C15_Step(pre, rec, post, gh) \cup C16_Step(pre, rec, post) \cup C17_Step(pre, rec, post)
-  \cup C10_Step(pre, rec, post) \cup C11_Step(pre, rec, post, gh, gh2) \cup C18_Step(pre, rec, post)
+  \cup C10_Step(pre, rec, post) \cup C11_Step(pre, rec, post, gh, gh2) \cup C18_Step(pre, rec, post, gh)
   \cup C13_Step(pre, rec, post, gh) \cup C19_Step(pre, rec, post)
 
 \* coverage tags: which property antecedents were exercised non-trivially at this step
